@@ -641,10 +641,10 @@ def compare_coords(base_run, other_run, motion):
         dev = max(abs(u - v) for u, v in zip(p, q)) / 1000.0
         worst = max(worst, dev)
         if dev > COORD_TOL:
-            DEVIATING.append((x[:4], dev, first_res[x[0]] == x[1]))
+            DEVIATING.append((x[:4], dev, first_res[x[0]] == x[1], len(errs)))
             errs.append('particle %s: moved original position %s, transformed run has %s (deviation %.4f A)'
                         % (x[:4], [round(c / 1000.0, 3) for c in p], [c / 1000.0 for c in q], dev))
-    return errs[:8], worst
+    return errs, worst
 
 
 DEVIATING = []
@@ -655,7 +655,28 @@ def is_f_c11_1(p, errs_other_outputs):
     particles of the first residue of a chain differ, by at most 0.05 A"""
     return (p['kind'] in ('hren', 'all', 'hrenlast') and ('-nt' in p['argv'] or 'NH2-ter' in p['argv'])
             and not errs_other_outputs and DEVIATING
-            and all(first and dev <= 0.05 for _k, dev, first in DEVIATING))
+            and all(first and dev <= 0.05 for _k, dev, first, _i in DEVIATING))
+
+
+DUMMY_NAMES = ('SCP', 'SCN')
+
+
+def split_dummies(p, errs):
+    """F-C11-2: with a polarisable force field the charge dummies are placed at a random orientation (unseeded
+    numpy RNG), so their coordinates are not a function of the input at all.  -> (errors about dummies, other errors)"""
+    if 'martini22p' not in p['argv']:
+        return [], errs
+    idx = {i for k, _d, _f, i in DEVIATING if k[3] in DUMMY_NAMES}
+    DEVIATING[:] = [d for d in DEVIATING if d[3] not in idx]
+    return [e for i, e in enumerate(errs) if i in idx], [e for i, e in enumerate(errs) if i not in idx]
+
+
+def is_f_c11_3(p, errs_other_outputs):
+    """signature of F-C11-3: martini22p, hydrogens renamed, nothing but the coordinates of non-dummy particles of the
+    first residue of a chain differ, by at most 0.05 A"""
+    return (p['kind'] in ('hren', 'all', 'hrenlast') and 'martini22p' in p['argv']
+            and not errs_other_outputs and DEVIATING
+            and all(first and dev <= 0.05 for _k, dev, first, _i in DEVIATING))
 
 
 # ----------------------------------------------------------------------------------------------
@@ -941,9 +962,15 @@ for p in plans:
                 errs.append('%s differs: %s vs %s' % (n, top_body(rb['files'][n])[-6:], top_body(ro['files'][n])[-6:]))
         elif n == 'cg.pdb':
             e, worst = compare_coords(rb, ro, p['motion'])
-            errs += e
+            dummy_errs, e = split_dummies(p, e)
+            if dummy_errs:
+                chk.case('%s|%s#dummies' % (p['cid'], n), json.dumps(dict(descr, output=n + '#charge-dummies'), sort_keys=True),
+                         'differs', None, dummy_errs[:6], nontrivial, finding=None if other_errs else 'F-C11-2')
+            errs += e[:8]
             if e and is_f_c11_1(p, other_errs):
                 finding = 'F-C11-1'
+            elif e and is_f_c11_3(p, other_errs):
+                finding = 'F-C11-3'
             impl = 'max deviation %.4f A' % worst if not e else 'differs'
             chk.count('coord_dev<=0.0015A' if worst <= 0.0015 else 'coord_dev<=0.02A' if worst <= 0.02 else 'coord_dev>0.02A')
         else:
